@@ -41,7 +41,7 @@ ASSUMPTIONS = [
     "only the CommonFormatter and HuaweiFormatter splitters; the alphabet has no 'end-list'/'endif'/'end-filter' rows",
     "default comment markers ('!', '#'); one variant with ('!',) where '#' lines are content",
 ]
-BUDGET = {"quick": 90, "thorough": 900}
+BUDGET = {"quick": 120, "thorough": 900}
 
 # ---- part 1 alphabet ---------------------------------------------------------------------------------
 WORDS = ("a", "b")
@@ -80,7 +80,7 @@ def tier_bounds(tier):
     """L_all: every variant up to this length; L: DEEP_VARIANTS up to this length; L_small: exactly this length over
     SMALL_SYMS, every variant"""
     if tier == "quick":
-        return {"L": 5, "L_all": 5, "L_small": 0}
+        return {"L": 5, "L_all": 4, "L_small": 0}
     return {"L": 6, "L_all": 5, "L_small": 7}
 
 
@@ -370,8 +370,11 @@ def run_bfs(block, ctx):
         # terminal states really are terminal: pulling again after ERROR / END ends
         for h in ([[" a"], ["a"]], [[]]):
             chain = Chain()
+            last = None
             for ev in h:
-                chain.step(ev)
+                last = chain.step(ev)
+            if chain.state(last) not in (ERROR, END):
+                continue
             again = chain.step(["a"])
             ctx.evals += 1
             if again[0] != "end":
